@@ -7,6 +7,7 @@ open SSVerif.LogAdd
 #print axioms C19_logAdd_accurate
 #print axioms C19_tables_checked
 #print axioms C19_logAdd_spec
+#print axioms C19_logAdd_is_rounded_log_of_sum
 #print axioms C19_t0_is_log2
 #print axioms C19_log_loses_less_than_one_unit
 #print axioms C19_log_exp_never_increases_partial
